@@ -124,8 +124,20 @@ func (d *ioDriver) c03Actions(add func(string, func())) {
 	}
 	if d.posts < 2 {
 		add("post", func() {
+			// as a deviation the posted handler posts another one while it runs (the loop is inside its dispatch then)
+			again := d.x.Deviate(2, "the posted handler posts another handler") == 1
 			d.posts++
-			if err := d.ioc.Post(func() { d.posts--; d.handlers++; d.x.Note("  posted handler ran") }); err != nil {
+			if err := d.ioc.Post(func() {
+				d.posts--
+				d.handlers++
+				d.x.Note("  posted handler ran")
+				if again {
+					d.posts++
+					if err := d.ioc.Post(func() { d.posts--; d.handlers++; d.x.Note("  handler posted from a handler ran") }); err != nil {
+						d.fail("io.Post/error", "Post from a posted handler: %v", err)
+					}
+				}
+			}); err != nil {
 				d.fail("io.Post/error", "Post: %v", err)
 			}
 		})
